@@ -112,12 +112,38 @@ pub fn spawn_piped(s: &Spawn) -> std::io::Result<ChildOut> {
 }
 
 pub fn spawn(s: &Spawn) -> std::io::Result<ChildOut> {
-    let exe = own_exe()?;
+    spawn_wrapped(s, &[])
+}
+
+/// the path of the running binary as a wrapper program (strace) can start it; `None` when the
+/// file was replaced meanwhile
+pub fn own_exe_resolved() -> Option<PathBuf> {
+    let p = std::fs::read_link("/proc/self/exe").ok()?;
+    if p.to_string_lossy().ends_with(" (deleted)") || !p.exists() {
+        return None;
+    }
+    Some(p)
+}
+
+/// like `spawn`, with the child started through a wrapper command (e.g. `strace -f ... --`)
+pub fn spawn_wrapped(s: &Spawn, wrapper: &[String]) -> std::io::Result<ChildOut> {
+    let exe = if wrapper.is_empty() {
+        own_exe()?
+    } else {
+        own_exe_resolved().ok_or_else(|| std::io::Error::new(std::io::ErrorKind::NotFound, "own binary was replaced"))?
+    };
     let out_path = s.ctx.dir.join(format!("{}.stdout", s.tag));
     let err_path = s.ctx.dir.join(format!("{}.stderr", s.tag));
     let out_f = std::fs::File::create(&out_path)?;
     let err_f = std::fs::File::create(&err_path)?;
-    let mut cmd = Command::new(exe);
+    let mut cmd = if wrapper.is_empty() {
+        Command::new(exe)
+    } else {
+        let mut c = Command::new(&wrapper[0]);
+        c.args(&wrapper[1..]);
+        c.arg(exe);
+        c
+    };
     cmd.arg("child")
         .arg(&s.ctx.prop)
         .arg("--seed")
